@@ -145,6 +145,12 @@ def replay(case):
                 basis2 = [[make_fn(f) for f in mode] for mode in cfg['basis']]
                 mult = max(2, m * 4)
                 try:
+                    # second use: the same basis-function objects serve another data set first (the snapshots in reverse order,
+                    # shifted); that call may fail (its own candidates / ranks), only what it leaves behind matters here
+                    try:
+                        tf.hocur(np.ascontiguousarray(x[:, ::-1]) + 0.5, basis2, ranks=m, repeats=1, multiplier=mult, progress=False)
+                    except Exception:
+                        pass
                     if cfg['seed'] % 2 and m > 1:
                         # the documented list form of the rank argument, re-used for two data sets: the
                         # requested ranks of the second call are what the caller wrote, whatever the first call did
